@@ -223,6 +223,7 @@ Section Repeat.
   Proof. rewrite trp_chk. unfold after_ok. destruct haschk; reflexivity. Qed.
 
   Definition step_body := repeat_step geom LF id nacts chk run_act.
+  Local Strategy expand [step_body].
 
   Lemma res_bind A B (m : M A) (f : A -> M B) s0 :
     res (bind m f s0) = match res (m s0) with Ok a => res (f a (post (m s0))) | Err e => Err e end.
@@ -254,6 +255,13 @@ Section Repeat.
     unfold rep_coin. destruct (N.ltb _ _); [apply notr_coin|]. destruct force.
     - apply notr_bind; [apply notr_group, notr_drawBits|intros; apply notr_ret].
     - destruct (N.leb _ _); apply notr_coin.
+  Qed.
+
+  Lemma foe_cases site s1 :
+    (res (failOnError site s1) = Ok tt /\ trp (failOnError site s1) = [] /\ post (failOnError site s1) = s1) \/
+    (exists e, res (failOnError site s1) = Err e /\ trp (failOnError site s1) = []).
+  Proof.
+    unfold trp, failOnError. destruct (failed (ts s1)); [right; eexists; split; reflexivity|left; repeat split; reflexivity].
   Qed.
 
   Lemma rep_loop_auto minc maxc K : forall fuel count rej force acc s,
@@ -309,12 +317,9 @@ Section Repeat.
     destruct (res (chk s0 s)) as [u|e] eqn:Ec.
     - rewrite arun_app, chk_auto. rewrite trp_bind, res_bind.
       set (s1 := post (chk s0 s)).
-      assert (Hf : trp (failOnError (SRepeatInit id) s1) = [] /\ post (failOnError (SRepeatInit id) s1) = s1).
-      { unfold trp, failOnError. destruct (failed (ts s1)); split; reflexivity. }
-      destruct Hf as [Hf1 Hf2]. rewrite Hf1, Hf2. cbn [app].
-      destruct (res (failOnError (SRepeatInit id) s1)) as [u2|e2].
-      + apply rep_loop_auto.
-      + cbn. eexists; split; [reflexivity|]. intros r H; discriminate.
+      destruct (foe_cases (SRepeatInit id) s1) as [[Hr [Ht Hp]]|[e2 [Hr Ht]]]; rewrite Hr, Ht; cbn [app].
+      + rewrite Hp. exact (rep_loop_auto 0 maxInt K LF 0%nat 0%nat false s0 s1).
+      + eexists; split; [reflexivity|]. intros r H; discriminate.
     - rewrite chk_auto. eexists; split; [reflexivity|]. intros r H; discriminate.
   Qed.
 End Repeat.
